@@ -1,8 +1,8 @@
 # C12 — $repeat expands to exactly n indexed copies (cartesian product for named counts).
-from .. import core, evalgen, gen, hist, histprop
+from .. import filepass, core, evalgen, gen, hist, histprop
 from ..core import F, veq
 
-CLI = ()
+CLI = ("bkl",)
 HARNESS = True
 ASSUMPTIONS = ["theorems are about Model.Eval.repeat_doc/repeat_gen/p2; tie to repeat.go/process2.go is this run's comparison through OutputDocuments"]
 RULE = ("documents with $repeat (count -1..5, bad counts; 1-3 named counts 0..3) at document level, in list-rooted documents, inside lists and "
@@ -113,7 +113,15 @@ def dist_fn(dist, c, a, b):
 
 def run(ctx):
     n = 1500 if ctx.tier == "quick" else 30000
-    return histprop.run_history_property(ctx, "C12", gen_case, n, RULE, nontrivial, extra_batch=extra_batch, dist_fn=dist_fn)
+    stats = histprop.run_history_property(ctx, "C12", gen_case, n, RULE, nontrivial, extra_batch=extra_batch, dist_fn=dist_fn)
+    rng = core.Rng(ctx.seed + 1)
+    nf = 200 if ctx.tier == "quick" else 4000
+    cases = [gen_case(rng.fork("fc%d" % i)) for i in range(nf)]
+    done = filepass.run_layers_through_files(ctx, [filepass.layers_of_history(c) for c in cases], rng, "C12", "c12-disagreement")
+    stats["distribution"]["through_layer_files"] = done
+    stats["evaluations"] += done
+    stats["disagreements_checked"] = len(ctx.violations)
+    return stats
 
 
 def replay(ctx, payload):
